@@ -3,7 +3,7 @@
    nat, positive, Z, Q stay the extracted inductive types. *)
 From Coq Require Import Extraction ExtrOcamlBasic.
 From Coq Require Import QArith.
-From Model Require Import Base Dense Sparse ProcessSetM NumInst LU Rosenbrock BackwardEulerM ErrorNorm.
+From Model Require Import Base Dense Sparse ProcessSetM NumInst LU Rosenbrock BackwardEulerM ErrorNorm RateConst.
 
 Extraction Language OCaml.
 Set Extraction KeepSingleton.
@@ -20,4 +20,5 @@ Extraction "model.ml"
   LU.doolittle_num LU.doolittle_ip_num LU.mozart_num LU.mozart_ip_num LU.lin_solve LU.lin_solve_ip
   LU.pat_of LU.mat_of
   Rosenbrock.ros_solve BackwardEulerM.be_solve ErrorNorm.normalized_error ErrorNorm.is_converged
+  RateConst.calc_rate_constants
   Qred Qplus Qmult Qminus Qdiv Qcompare Z.of_nat Z.to_nat Z.compare Pos.to_nat.
